@@ -131,7 +131,7 @@ def check_str(model: Model, report: Report, rule: str) -> None:
     for with_token in (True, False):
 
         def body(it: Interp, with_token=with_token) -> Any:
-            e = it.new_inst(eci, "error")
+            e = it.harness_inst(eci, "error")
             msg = it.new_str("message")
             e.attrs["args"] = PyTuple((msg,))
             L, C = it.new_int("LINE"), it.new_int("COLUMN")
@@ -235,6 +235,36 @@ def check_token_sites(model: Model, report: Report, rule: str) -> None:
                 report.ok(rule, site, key)
     if n < 4:
         raise AnalysisError(f"only {n} Token(...) construction sites found in lex.py (expected at least 4)")
+    # tokens built anywhere else (parser, token stream, helpers): the only offsets of the query known there are the ones
+    # the lexer recorded on existing tokens, so a new token must reuse one unchanged together with that token's query
+    for fi in model.functions.values():
+        if fi.module is lex or fi.module.short.startswith("utils."):
+            continue
+        for node in walk_own(fi.node):
+            if not (isinstance(node, ast.Call) and model.resolve_expr_static(fi.module, node.func) == ("class", tci)):
+                continue
+            args = list(node.args)
+            kw = {k.arg: k.value for k in node.keywords}
+            params = ["type_", "value", "index", "query", "message"]
+            bound = {p: (args[i] if i < len(args) else kw.get(p)) for i, p in enumerate(params)}
+            idx, q = bound["index"], bound["query"]
+            key = f"token-site:{fi.qualname}:{ast.unparse(bound['type_']) if bound['type_'] is not None else '?'}"
+
+            def resolve_local(e: Any) -> Any:
+                if isinstance(e, ast.Name):
+                    defs = [st.value for st in walk_own(fi.node) if isinstance(st, ast.Assign) and any(isinstance(t, ast.Name) and t.id == e.id for t in st.targets)]
+                    if len(defs) == 1:
+                        return defs[0]
+                return e
+
+            idx_r = resolve_local(idx)
+            sentinel = isinstance(idx_r, ast.UnaryOp) and isinstance(idx_r.op, ast.USub) and isinstance(idx_r.operand, ast.Constant) and isinstance(q, ast.Constant) and q.value == ""
+            if sentinel:
+                report.ok(rule, fi.qualname, key + " (end-of-stream sentinel without a query)")
+            elif isinstance(idx_r, ast.Attribute) and idx_r.attr == "index" and isinstance(q, ast.Attribute) and q.attr == "query" and ast.unparse(q.value) == ast.unparse(idx_r.value):
+                report.ok(rule, fi.qualname, key + f" (reuses {ast.unparse(idx_r)})")
+            else:
+                report.fail(rule, fi.qualname, key, f"a token is built outside the lexer with index {ast.unparse(idx_r) if idx_r is not None else None} and query {ast.unparse(q) if q is not None else None}: only offsets the lexer recorded are known to lie inside the query text; arithmetic on them (e.g. adding a position inside a decoded or rewritten literal) can point past the end of the query", file=fi.file, line=node.lineno)
     # bracket stack entries are (char, offset of that char)
     for fi in model.functions.values():
         if fi.module is not lex:
